@@ -10,6 +10,8 @@
 //	R6 rand       crypto/rand.Read, math/rand.*      -> vsim.Rand*
 //	R7 fscalls    os./ioutil./syscall./filepath. calls and *os.File methods -> vsimfs.*
 //	R8 fspoints   vsimfs.Point(site) before any other statement that calls into os, io/ioutil, syscall, path/filepath
+//	R9 preempt    vsim.Preempt(site) before every statement of every function body (statement-level preemption for
+//	              small lock-free files; use together with R1)
 package main
 
 import (
@@ -207,6 +209,30 @@ func (rw *rewriter) run() {
 			return true
 		})
 	}
+	preempt := map[ast.Stmt]string{}
+	if rw.rules["R9"] {
+		ast.Inspect(f, func(n ast.Node) bool {
+			var list []ast.Stmt
+			switch b := n.(type) {
+			case *ast.BlockStmt:
+				list = b.List
+			case *ast.CaseClause:
+				list = b.Body
+			case *ast.CommClause:
+				list = b.Body
+			default:
+				return true
+			}
+			for _, st := range list {
+				switch st.(type) {
+				case *ast.ExprStmt, *ast.AssignStmt, *ast.ReturnStmt, *ast.DeferStmt, *ast.GoStmt, *ast.IncDecStmt, *ast.SendStmt,
+					*ast.IfStmt, *ast.ForStmt, *ast.RangeStmt, *ast.SwitchStmt, *ast.TypeSwitchStmt, *ast.SelectStmt:
+					preempt[st] = rw.pos(st)
+				}
+			}
+			return true
+		})
+	}
 	astutil.Apply(f, func(c *astutil.Cursor) bool {
 		switch n := c.Node().(type) {
 		case *ast.SelectorExpr:
@@ -281,6 +307,12 @@ func (rw *rewriter) run() {
 				rw.usedFs = true
 				rw.counts["R8"]++
 				delete(points, st)
+			}
+			if site, ok := preempt[st]; ok && c.Index() >= 0 {
+				c.InsertBefore(&ast.ExprStmt{X: &ast.CallExpr{Fun: vsimSel("Preempt"), Args: []ast.Expr{&ast.BasicLit{Kind: token.STRING, Value: fmt.Sprintf("%q", site)}}}})
+				rw.usedVsim = true
+				rw.counts["R9"]++
+				delete(preempt, st)
 			}
 		}
 		return true
